@@ -263,9 +263,13 @@ class Check:
         self.failures.append({'key': key, 'what': what, 'replay': replay})
 
     def match_known(self, f):
-        for k in self.known:
-            if f['key'] is not None and (k.get('key') == f['key'] or f['key'] in k.get('keys', ())):
-                return k
+        keys = f['key'] if isinstance(f['key'], (list, tuple)) else [f['key']]
+        for key in keys:
+            if key is None:
+                continue
+            for k in self.known:
+                if k.get('key') == key or key in k.get('keys', ()):
+                    return k
         return None
 
     def finish(self, level='proof', checker_cmd=None):
